@@ -3,6 +3,8 @@
 -/
 import Rsactor.Inv.Fifo
 import Rsactor.Inv.Rej
+import Rsactor.Inv.Stop
+import Rsactor.Props.C01
 import Rsactor.Ties.send_paths_shape
 import Rsactor.Ties.lifecycle_arms
 
@@ -32,6 +34,70 @@ theorem accepted_grows (s s' : Sys) (l : Label) (hs : step? s l = some s') :
 theorem accepted_once (cap : Nat) (sc : Script) (ls : List Label) (s : Sys)
     (hr : run? (init cap sc) ls = some s) : (accOids s).Nodup :=
   (ids_rej_run cap sc ls s hr).1.accNodup
+
+/-- `before_stop_handled`: once the loop has dequeued the stop marker at position k of the acceptance log,
+    every message accepted before it (position < k) has had its handler started - stop() takes its place
+    in the order. -/
+theorem before_stop_handled (cap : Nat) (sc : Script) (ls : List Label) (s : Sys)
+    (hr : run? (init cap sc) ls = some s) (k o : Nat) (_hk : s.accepted[k]? = some (.stop o))
+    (ht : s.taken = k + 1) (i : Nat) (hi : i < k) (m : Nat) (kd : Kind)
+    (ha : s.accepted[i]? = some (.env m kd)) : m ∈ startedMids s.ev :=
+  C01.graceful_complete cap sc ls s hr i (by omega) m kd ha
+
+/-- `after_stop_never_handled`: in every reachable state, a message accepted behind a stop marker
+    (position > k) has not been handled - and never will be, since this holds in every later state too.
+    A stop() call returns when its marker has been accepted, so nothing accepted after stop() returned
+    is ever handled. -/
+theorem after_stop_never_handled (cap : Nat) (sc : Script) (ls : List Label) (s : Sys)
+    (hr : run? (init cap sc) ls = some s) (k o : Nat) (hk : s.accepted[k]? = some (.stop o))
+    (i : Nat) (hi : k < i) (m : Nat) (kd : Kind) (ha : s.accepted[i]? = some (.env m kd)) :
+    m ∉ startedMids s.ev := by
+  obtain ⟨hf, hid, _, hmk⟩ := StopInv_run cap sc ls s hr
+  have hbound : s.taken ≤ k + 1 := by rcases hmk k o hk with h | ⟨h, _⟩ <;> omega
+  intro hmem
+  rw [hf.2.2.2] at hmem
+  obtain ⟨it, hit, hoid⟩ := List.mem_filterMap.mp hmem
+  obtain ⟨j, hj⟩ := List.getElem?_of_mem hit
+  rw [List.getElem?_take] at hj
+  split at hj
+  · rename_i hjt
+    -- the same oid at two different positions of the log
+    have hnd := hid.accNodup
+    unfold accOids at hnd
+    have h1 : (s.accepted.map Item.oid)[j]? = some m := by
+      rw [List.getElem?_map, hj]; cases it <;> simp_all [Item.oid]
+    have h2 : (s.accepted.map Item.oid)[i]? = some m := by
+      rw [List.getElem?_map, ha]; rfl
+    have hji : j ≠ i := by omega
+    have hjl : j < (s.accepted.map Item.oid).length := by
+      rcases List.getElem?_eq_some_iff.mp h1 with ⟨h, _⟩; exact h
+    exact hji ((List.getElem?_inj hjl hnd).mp (h1.trans h2.symm))
+  · cases hj
+
+/-- `nothing_after_stop_begins`: from the moment the loop leaves its select for good (on_stop is running or
+    the task has ended, whatever the cause) no handler starts any more. -/
+theorem nothing_after_stop_begins (cap : Nat) (sc : Script) (ls ls' : List Label) (s s' : Sys)
+    (hr : run? (init cap sc) ls = some s) (hp : isStopping s.pc = true) (hr' : run? s ls' = some s') :
+    startedMids s'.ev = startedMids s.ev := by
+  have hrun : run? (init cap sc) (ls ++ ls') = some s' := by rw [run_append, hr]; exact hr'
+  have hf := (StopInv_run cap sc ls s hr).1
+  have hf' := (StopInv_run cap sc (ls ++ ls') s' hrun).1
+  have ht := (taken_frozen_run s s' ls' hr' hp).1
+  -- the acceptance log of s is a prefix of that of s'
+  have hpre : ∃ suf, s'.accepted = s.accepted ++ suf := by
+    clear hrun hf hf' ht hp hr
+    induction ls' generalizing s with
+    | nil => simp [run?] at hr'; subst hr'; exact ⟨[], by simp⟩
+    | cons l ls ih =>
+      simp only [run?] at hr'
+      split at hr'
+      · cases hr'
+      · rename_i s1 hs1
+        obtain ⟨a, ha⟩ := accepted_grows' s s1 l hs1
+        obtain ⟨b, hb⟩ := ih s1 hr'
+        exact ⟨a ++ b, by rw [hb, ha, List.append_assoc]⟩
+  obtain ⟨suf, hsuf⟩ := hpre
+  rw [hf'.2.2.2, hf.2.2.2, ht, hsuf, List.take_append_of_le_length hf.1]
 
 -- non-vacuity: two senders, capacity 1: the second push waits for the dequeue and is handled second
 example : ∃ s, run? (init 1 {})
